@@ -64,6 +64,11 @@ def _ops(depth=0):
         st.tuples(st.just("read2"), inst, pn),
         st.tuples(st.just("inspect"), inst, pn),
         st.tuples(st.just("half"),),
+        st.tuples(st.just("force"), inst, pn),
+        # push, jump, read, pop, read again at the new time (the cache no longer holds that time)
+        st.tuples(st.just("pushjump"), inst, pn, st.integers(-3, 8)),
+        # read here, jump away, force a new value there, jump back, read here again
+        st.tuples(st.just("forceback"), inst, pn, st.integers(-3, 8)),
     ]
     if depth < 2:
         base.append(st.tuples(st.just("ctx"), st.lists(st.deferred(lambda: _ops(depth + 1)), max_size=4)))
@@ -79,7 +84,9 @@ def _case(draw):
         gens[4] = gens[0]
         gens[3] = gens[7] = gens[1]
     ops = draw(st.lists(_ops(), min_size=2, max_size=20))
-    return {"gens": gens, "fraction_time": draw(st.booleans()), "ops": ops}
+    # the very same generator object may also sit behind a second parameter, alone or inside `g + c`
+    share = draw(st.one_of(st.none(), st.tuples(st.integers(0, 7), st.integers(0, 7), st.sampled_from([0, 0, 10]))))
+    return {"gens": gens, "fraction_time": draw(st.booleans()), "ops": ops, "share": list(share) if share else None}
 
 
 def strategy(tier):
@@ -145,10 +152,17 @@ def _run(case, res, tf):
     Q = type("Q", (param.Parameterized,), {"n0": param.Number(default=0.0), "n1": param.Number(default=0.0)})
     specs = case["gens"]
     insts = []
+    gens = [_build(sp) for sp in specs]
+    idents = [_ident(s) for s in specs]
+    share = case.get("share")
+    if share and share[0] != share[1]:
+        src, dst, c = share
+        gens[dst] = gens[src] if c == 0 else gens[src] + c
+        idents[dst] = idents[src] if c == 0 else ("shared_plus", c, idents[src])
+        res.label("shared_generator_object")
     for i in range(4):
         cls = P if i < 2 else Q
-        insts.append(cls(n0=_build(specs[2 * i]), n1=_build(specs[2 * i + 1])))
-    idents = [_ident(s) for s in specs]
+        insts.append(cls(n0=gens[2 * i], n1=gens[2 * i + 1]))
     table = {}
     visits = {}        # key -> list of global read counters
     last_val = {}      # (inst, pn) -> last produced value
@@ -157,6 +171,10 @@ def _run(case, res, tf):
 
     def now():
         return Fraction(tf())
+
+    def lk(i, pn):
+        # the last-produced value is cached on the generator object (which may sit behind two parameters)
+        return id(gens[2 * i + pn])
 
     def read(i, pn):
         slot = 2 * i + pn
@@ -175,7 +193,7 @@ def _run(case, res, tf):
                 res.fail("C19.not_a_function_of_time", f"{mark}generator {idents[slot]} at time {t}: read {v!r} on inst{i}.{name}, "
                                                       f"first value seen at that time was {table[key]!r}")
             # non-trivial if another time was visited between the two reads
-            if any(tt != t for tt in st_["times_seen"][visits[key][-1]:]):
+            if key in visits and any(tt != t for tt in st_["times_seen"][visits[key][-1]:]):
                 st_["revisit"] = True
         elif first_at_minus1 and v is None:
             res.fail("C19.not_a_function_of_time", f"{mark}generator {idents[slot]} read for the first time at time -1 returned "
@@ -185,7 +203,15 @@ def _run(case, res, tf):
             table[key] = v
         visits.setdefault(key, []).append(len(st_["times_seen"]))
         st_["times_seen"].append(t)
-        last_val[(i, pn)] = v
+        last_val[lk(i, pn)] = v
+        if share and share[0] != share[1] and slot in (share[0], share[1]):
+            other = share[1] if slot == share[0] else share[0]
+            ok = (idents[other], t)
+            if ok in table:
+                a, b = (table[key], table[ok]) if slot == share[0] else (table[ok], table[key])
+                if b != a + share[2]:
+                    res.fail("C19.shared_generator_disagrees", f"one generator object behind two parameters at time {t}: "
+                                                               f"{a!r} and {b!r} (expected second == first + {share[2]})")
         return v
 
     def run(op, depth):
@@ -214,14 +240,45 @@ def _run(case, res, tf):
                                                       f"{a!r} then {b!r}")
         elif k == "inspect":
             i, pn = op[1], op[2]
-            if (i, pn) not in last_val:
+            if lk(i, pn) not in last_val:
                 return
             v = insts[i].param.inspect_value("n%d" % pn)
-            if v != last_val[(i, pn)]:
+            if v != last_val[lk(i, pn)]:
                 res.fail("C19.inspect_value", f"inspect_value(inst{i}.n{pn}) gave {v!r}, the last produced value was "
-                                              f"{last_val[(i, pn)]!r}")
+                                              f"{last_val[lk(i, pn)]!r}")
             # inspecting must not advance anything: the next read still agrees with the table (checked by read)
             read(i, pn)
+        elif k == "force":
+            i, pn = op[1], op[2]
+            slot = 2 * i + pn
+            if slot not in ever_read:
+                return
+            v = insts[i].param.force_new_dynamic_value("n%d" % pn)
+            key = (idents[slot], now())
+            if key in table and table[key] != v:
+                res.fail("C19.not_a_function_of_time", f"force_new_dynamic_value(inst{i}.n{pn}) at time {now()} gave {v!r}, "
+                                                      f"the value of that generator at that time is {table[key]!r}")
+            table.setdefault(key, v)
+            last_val[lk(i, pn)] = v
+        elif k == "forceback":
+            i, pn = op[1], op[2]
+            t0 = tf()
+            read(i, pn)
+            tf(Fraction(op[3]) if st_["fraction"] else op[3])
+            st_["times_seen"].append(now())
+            run(["force", i, pn], depth)
+            tf(t0)
+            st_["times_seen"].append(now())
+            read(i, pn)
+        elif k == "pushjump":
+            i, pn = op[1], op[2]
+            insts[i].param._state_push()
+            tf(Fraction(op[3]) if st_["fraction"] else op[3])
+            st_["times_seen"].append(now())
+            read(i, pn)
+            insts[i].param._state_pop()
+            read(i, pn)
+            st_["ctx_jump"] = True
         elif k == "ctx":
             t0 = tf()
             n0 = len(st_["times_seen"])
@@ -250,9 +307,8 @@ def _run(case, res, tf):
                 if v != b and not (v != v and b != b):
                     res.fail("C19.state_pop_restore", f"inspect_value(inst{i}.n{pn}) was {b!r} at _state_push and is {v!r} "
                                                       f"after _state_pop")
-                last_val[(i, pn)] = v if (i, pn) in last_val else last_val.get((i, pn))
-                if (i, pn) in last_val:
-                    last_val[(i, pn)] = v
+                if lk(i, pn) in last_val:
+                    last_val[lk(i, pn)] = v
 
     if case["fraction_time"]:
         tf(0, time_type=Fraction)
